@@ -535,7 +535,25 @@ def run_many(fn, args, workers=None):
 
 # ------------------------------------------------------------------ a standard success-path case
 
-def success_case(sp, yield_seed=None, timeout=60, gomaxprocs=None, extra_check=None, alts=()):
+def replay_problems(sp, model, impl, replays, initial_files=None, stats=None, crash=None, leftover_dirs=()):
+    """T3-replay: the hook event log of the run, replayed through the transition systems named in `replays`"""
+    from tools import replay as rp
+    completed = impl["rc"] == 0 and impl.get("returned", False) and not impl["timed_out"]
+    problems = []
+    stats = stats if stats is not None else {}
+    if "slots" in replays:
+        p, i = rp.slots_problems(impl, sp.max, completed)
+        problems += p; stats.update(i)
+    if "tasks" in replays:
+        p, i = rp.task_problems(sp, model, impl, dict(sp.files) if initial_files is None else initial_files, crash=crash, leftover_dirs=leftover_dirs)
+        problems += p; stats.update(i)
+    if "net" in replays:
+        p, i = rp.net_problems(sp, model, impl, completed)
+        problems += p; stats.update(i)
+    return problems
+
+
+def success_case(sp, yield_seed=None, timeout=60, gomaxprocs=None, extra_check=None, alts=(), replays=()):
     """run one spec on model and implementation; returns dict with problems (list of (kind, text)).
     alts: specs of the same workflow with another (equally legal) arrival order at a fan-in port; the implementation is
     compared with each and has to agree with one of them."""
@@ -552,12 +570,16 @@ def success_case(sp, yield_seed=None, timeout=60, gomaxprocs=None, extra_check=N
                 problems = compare_success(s_, model, impl)
             if extra_check:
                 problems += extra_check(s_, model, impl, sc)
+            rstats = {}
+            if replays and model["status"] == "done":
+                problems += replay_problems(s_, model, impl, replays, stats=rstats)
             if best is None or len(problems) < len(best[0]):
-                best = (problems, model)
+                best = (problems, model, rstats)
             if not problems:
                 break
-        problems, model = best
-        return {"spec": sp.text(), "bufsize": sp.bufsize, "problems": problems, "ntasks": sum(1 for t in model["tasks"] if t["status"] == "run"),
+        problems, model, rstats = best
+        hist = [(name, n, "g%d" % gid, keys) for ts, name, n, keys, gid in impl["hooks"]] if any(k.startswith("replay-") for k, _ in problems) else None
+        return {"replay": rstats, "history": hist, "spec": sp.text(), "bufsize": sp.bufsize, "problems": problems, "ntasks": sum(1 for t in model["tasks"] if t["status"] == "run"),
                 "nskip": sum(1 for t in model["tasks"] if t["status"] == "skip"), "rc": impl["rc"], "stderr": impl["stderr"][-400:], "yield": yield_seed,
                 "wall": impl["wall"]}
     finally:
@@ -568,12 +590,25 @@ def report_t3(rep, module, proved, results, what_corr, violation_kinds=None):
     """turn T3 results into VIOLATION lines: each problem is a concrete workflow on which the implementation's
     observables differ from what the property (via the proved model) demands"""
     found = False
+    agg = {}
     for r in results:
+        for k, v in (r.get("replay") or {}).items():
+            if isinstance(v, int):
+                agg[k] = agg.get(k, 0) + v
+            else:
+                agg.setdefault(k, {})
+                agg[k][v] = agg[k].get(v, 0) + 1
+    if agg:
+        rep.notes["history_replay"] = dict(agg, what="hook event logs of the real runs replayed through the extracted transition systems (Replay.replay; verdicts per run, events = script lines)")
+    only_replay = lambda r: all(k.startswith("replay-") for k, _ in r["problems"])
+    for r in sorted((r for r in results if r["problems"]), key=only_replay):
         if r["problems"]:
             kinds = [k for k, _ in r["problems"]]
-            rep.violation("; ".join("%s: %s" % p for p in r["problems"])[:1500],
+            # a history the model cannot take, without any monitor of the property statement firing on the same run, is a
+            # broken correspondence: reported, naming the transition system, as no-failing-input-found
+            rep.violation("; ".join("%s: %s" % p for p in r["problems"])[:1500], nofail=only_replay(r), replay=
                           {"kind": kinds[0], "spec": r["spec"], "bufsize": r.get("bufsize"), "yield": r.get("yield"), "problems": r["problems"],
-                           "case": {k: v for k, v in r.items() if k in ("mode", "point", "second", "kind", "shape", "sizes", "chain", "log_tail")},
+                           "case": {k: v for k, v in r.items() if k in ("mode", "point", "second", "kind", "shape", "sizes", "chain", "log_tail", "history", "replay")},
                            "stderr": r.get("stderr"), "how_to_replay": "write spec to a file, plant FILE lines, run build/bin/wfrun SPEC in an empty directory with SCIPIPE_BUFSIZE set"})
             found = True
             if len(rep.violations) >= 5:
